@@ -1,5 +1,6 @@
 #!/bin/bash
-# lib/seedall.sh <lane> <property-id> <seed root with 1/,2/,3/>: confirm + evaluate every seed, collect into /verif/seeded/<id>/<n>/
+# lib/seedall.sh <lane> <property-id> <seed root with 1/,2/,3/> [baseline worktree]: confirm + evaluate every seed,
+# collect into /verif/seeded/<id>/<n + OFFSET>/ (OFFSET from the environment, default 0; round 2 uses OFFSET=3)
 LANE=$1; PID=$2; ROOT=$3
 for n in 1 2 3; do
   S=$ROOT/$n
@@ -7,7 +8,7 @@ for n in 1 2 3; do
   echo "######## $PID seed $n"
   /verif/lib/seedconfirm.sh $S ${4:-/tmp/baseline} > $S/confirm.log 2>&1; tail -1 $S/confirm.log
   /verif/lib/seedeval.sh $LANE $PID $S/patch.diff > $S/eval.log 2>&1; grep -E "VIOLATION|KNOWN|^\[|SEEDEVAL" $S/eval.log | cut -c1-250
-  D=/verif/seeded/$PID/$n; mkdir -p $D
+  D=/verif/seeded/$PID/$((n + ${OFFSET:-0})); mkdir -p $D
   cp $S/patch.diff $S/demo.rs $D/; [ -f $S/meta.json ] && cp $S/meta.json $D/meta.seed.json
   [ -f $S/confirm.json ] && cp $S/confirm.json $D/
   grep -E "VIOLATION|KNOWN|^\[|SEEDEVAL" $S/eval.log | cut -c1-400 > $D/check_result.txt
